@@ -320,6 +320,19 @@ func vfRunReader(rep *verifkit.Report, body *vfBody, cut int, planName string, p
 				break
 			}
 		}
+		// what the inner reader answers after its end / after Close must reach the application unchanged too
+		for extra := 0; extra < 3; extra++ {
+			if extra == 2 {
+				_ = rd.Close()
+			}
+			n, err := rd.Read(buf)
+			gotBytes = append(gotBytes, buf[:n]...)
+			e := ""
+			if err != nil {
+				e = err.Error()
+			}
+			gotLog = append(gotLog, verifkit.ReadResult{N: n, Err: e})
+		}
 		bld.build() // flush (request side does not complete on a clean body end)
 	})
 	if pn != nil {
